@@ -115,10 +115,12 @@ def make_blockmap(geo):
     return bm
 
 
-def configure(geo, mesh, angle, atmvol, atmcon, surfaces, rot=None, pivot=None, shift=None):
+def configure(geo, mesh, angle, atmvol, atmcon, surfaces, rot=None, pivot=None, shift=None, refresh=True):
     """Applies atmosphere parameters, permeability angle, column surfaces
     (None = keep the default), rotation and translation with the real methods;
-    returns (mesh, surf) of the oracle after the same transformations."""
+    returns (mesh, surf) of the oracle after the same transformations.
+    refresh=False: the surfaces are only ASSIGNED (documented column property
+    `surface`), without set_column_num_layers / the name-index set-up calls."""
     tops, bots, mids = GO.layer_levels(mesh)
     geo.atmosphere_volume = atmvol
     geo.atmosphere_connection = atmcon
@@ -130,9 +132,9 @@ def configure(geo, mesh, angle, atmvol, atmcon, surfaces, rot=None, pivot=None, 
         surf[k] = s
         col = geo.columnlist[k]
         col.surface = s
-        geo.set_column_num_layers(col)
+        if refresh: geo.set_column_num_layers(col)
         changed = True
-    if changed:
+    if changed and refresh:
         geo.setup_block_name_index()
         geo.setup_block_connection_name_index()
     if rot:
@@ -143,6 +145,100 @@ def configure(geo, mesh, angle, atmvol, atmcon, surfaces, rot=None, pivot=None, 
         mesh = GO.rotate_translate(mesh, None, (0, 0), shift)
         surf = [s + shift[2] for s in surf]
     return mesh, surf
+
+
+# ---------------------------------------------------------------------------
+# C04 round 4: an EXISTING geometry object is edited in place with the real API
+# (and possibly converted once before that); the oracle mesh is edited alongside.
+
+def node_of_vertex(geo, mesh):
+    """oracle vertex index -> node object of the geometry (build() / rectangular()
+    create the nodes in the order of the used vertex indices)."""
+    used = sorted(set(v for col in mesh['cols'] for v in col))
+    return dict((v, geo.nodelist[n]) for n, v in enumerate(used))
+
+
+def rename_columns(geo, rename):
+    """rename = {column index: new name}, through the real rename_column()."""
+    for k in sorted(rename):
+        ok = geo.rename_column(geo.columnlist[k].name, rename[k])
+        if not ok: raise ValueError('rename_column(%r) refused' % rename[k])
+
+
+def move_nodes(M, geo, nodes, mesh_b):
+    """Moves every node to its position in mesh_b and then does what
+    mulgrid.optimize() does after moving nodes: column centre = centroid,
+    column area recomputed."""
+    for v, nd in nodes.items():
+        nd.pos = M.np.array([mesh_b['verts'][v][0], mesh_b['verts'][v][1]])
+    for col in geo.columnlist:
+        col.centre = col.centroid
+        col.get_area()
+
+
+def _without_column(mesh, surf, k):
+    keep = [i for i in range(len(mesh['cols'])) if i != k]
+    new = dict((old, n) for n, old in enumerate(keep))
+    out = dict(mesh)
+    out['cols'] = [mesh['cols'][i] for i in keep]
+    out['given'] = None if mesh.get('given') is None else [mesh['given'][i] for i in keep]
+    out['centre'] = [mesh['centre'][i] for i in keep]
+    out['cons'] = [(new[a], new[b]) for (a, b) in mesh['cons'] if a != k and b != k]
+    return out, [surf[i] for i in keep]
+
+
+def _split_column(mesh, surf, k, p):
+    """Quadrilateral k (anticlockwise v0..v3) split across vertex p and the opposite
+    one: the column keeps (v_p, v_p+1, v_p+2), a new LAST column gets (v_p+2, v_p+3, v_p)."""
+    q = mesh['cols'][k]
+    assert len(q) == 4
+    t1 = [q[p % 4], q[(p + 1) % 4], q[(p + 2) % 4]]
+    t2 = [q[(p + 2) % 4], q[(p + 3) % 4], q[p % 4]]
+    V = mesh['verts']
+    third = Fraction(1, 3)
+    def mean(t): return (sum(V[v][0] for v in t) * third, sum(V[v][1] for v in t) * third)
+    out = dict(mesh)
+    out['cols'] = [t1 if i == k else c for i, c in enumerate(mesh['cols'])] + [t2]
+    out['given'] = None
+    out['centre'] = [mean(t1) if i == k else c for i, c in enumerate(mesh['centre'])] + [mean(t2)]
+    out['cons'] = _adjacent_pairs(out['cols'])
+    return out, list(surf) + [surf[k]]
+
+
+def apply_edit(M, geo, nodes, mesh, surf, edit):
+    """One documented structural edit by the real method, mirrored on (mesh, surf):
+    ('delete_column', k) | ('delete_layer_bottom',) | ('split_column', k, p)."""
+    kind = edit[0]
+    if kind == 'delete_column':
+        k = edit[1]
+        geo.delete_column(geo.columnlist[k].name)
+        return _without_column(mesh, surf, k)
+    if kind == 'delete_layer_bottom':
+        geo.delete_layer(geo.layerlist[-1].name)
+        out = dict(mesh); out['dz'] = list(mesh['dz'])[:-1]
+        return out, surf
+    if kind == 'split_column':
+        k, p = edit[1], edit[2]
+        ok = geo.split_column(geo.columnlist[k].name, nodes[mesh['cols'][k][p]].name)
+        if not ok: raise ValueError('split_column refused')
+        return _split_column(mesh, surf, k, p)
+    raise KeyError(kind)
+
+
+def edit_and_convert(M, T, geo, blockmap, mesh, surf, preconvert=False, mesh_b=None, edits=()):
+    """-> (grid, mesh, surf).  Optionally converts the geometry once, then moves
+    its nodes to mesh_b / applies the edits, then converts (again) with the SAME
+    t2grid object; the grid returned is that of the geometry's final state."""
+    grid = T.t2grid()
+    nodes = node_of_vertex(geo, mesh)
+    if preconvert: grid.fromgeo(geo, blockmap)
+    if mesh_b is not None:
+        move_nodes(M, geo, nodes, mesh_b)
+        mesh = mesh_b
+    for e in edits:
+        mesh, surf = apply_edit(M, geo, nodes, mesh, surf, tuple(e))
+    grid.fromgeo(geo, blockmap)
+    return grid, mesh, surf
 
 
 def compare(ex, geo, grid, blockmap, S, P):
